@@ -42,13 +42,19 @@ def check(run):
     dsname = f.params()[0]
     tmpl = None
     gt_name = None
-    for st in iter_stmts(f.node.body):
-        if isinstance(st, ast.Assign) and len(st.targets) == 1 and isinstance(st.targets[0], ast.Name):
-            for n in ast.walk(st.value):
-                r = P.resolve_expr(f.module, n, f) if isinstance(n, (ast.Attribute, ast.Name)) else None
-                if isinstance(r, ConstInfo) and isinstance(P.const_value(r), dict) and "cf_role" in P.const_value(r):
-                    tmpl = P.const_value(r)
-                    gt_name = st.targets[0].id
+    enc = f
+    # the topology attributes are assembled in the encoder itself or in a function of its module that it hands the dataset to
+    from ..astutil import InterDefs
+    for host in InterDefs(P, enc, depth=1).scope:
+        for st in iter_stmts(host.node.body):
+            if isinstance(st, ast.Assign) and len(st.targets) == 1 and isinstance(st.targets[0], ast.Name):
+                for n in ast.walk(st.value):
+                    r = P.resolve_expr(host.module, n, host) if isinstance(n, (ast.Attribute, ast.Name)) else None
+                    if isinstance(r, ConstInfo) and isinstance(P.const_value(r), dict) and "cf_role" in P.const_value(r) and gt_name is None:
+                        tmpl = P.const_value(r)
+                        gt_name = st.targets[0].id
+                        f = host
+                        dsname = host.params()[0]
     if gt_name is None:
         run.incomplete("F-GUARD/topology-names", f"{f.key}:template", where(f), "grid_topology template not recognised")
     else:
@@ -176,7 +182,7 @@ def check(run):
                 run.holds("F-TABLE/writer-reader-keys", c, f"uxarray/conventions/ugrid.py:{ci.node.lineno}", "start_index = 0 and _FillValue declared")
     run.floor("F-TABLE/writer-reader-keys", n_t, 7)
     # ---- non-serialisable attrs on variables stored in _ds
-    stripped = _attrs_stripped_by_encoder(P, f)
+    stripped = _attrs_stripped_by_encoder(P, enc)
     run.stats["attrs_stripped_by_ugrid_encoder"] = sorted(f"{v}.{k}" for v, k in stripped)
     n_attr = 0
     for g in P.all_functions():
@@ -225,6 +231,9 @@ def check(run):
                               f"helper attribute(s) {[b[0] for b in bad]} of '{key}' are removed from the exported copy by _encode_ugrid")
                     continue
                 bad = kept
+                if bad and key in getattr(_attrs_stripped_by_encoder, "unknown", set()):
+                    run.incomplete("F-KIND/serialisable-attrs", c, where(g, st), f"'{key}' carries non-serialisable attribute(s) {bad}; _encode_ugrid rewrites its attrs in a way that is not understood")
+                    continue
                 if bad:
                     run.violation("F-KIND/serialisable-attrs", c, where(g, st),
                                   f"variable '{key}' is stored in the grid dataset with non-serialisable attribute(s) {bad}: Grid.to_xarray().to_netcdf() fails once this variable has been built")
@@ -258,11 +267,18 @@ def _attrs_stripped_by_encoder(P, f):
           [if V in ds:]  ds[V].attrs = {k: v for k, v in ds[V].attrs.items() if k not in HS}
       del ds["var"].attrs["k"]      /     ds["var"].attrs.pop("k"[, ...])"""
     out = set()
+    unknown = set()       # variables whose attrs are rewritten in a way that is not understood
     dsname = f.params()[0]
+
+    dsnames = {dsname}
+    for st in iter_stmts(f.node.body):
+        if isinstance(st, ast.Assign) and isinstance(st.targets[0], ast.Name) and isinstance(st.value, ast.Call) and isinstance(st.value.func, ast.Attribute) and st.value.func.attr in ("copy", "drop_vars") \
+                and isinstance(st.value.func.value, ast.Name) and st.value.func.value.id in dsnames:
+            dsnames.add(st.targets[0].id)
 
     def is_attrs_of(node, var_expr_pred):
         return (isinstance(node, ast.Attribute) and node.attr == "attrs" and isinstance(node.value, ast.Subscript)
-                and isinstance(node.value.value, ast.Name) and node.value.value.id == dsname and var_expr_pred(node.value.slice))
+                and isinstance(node.value.value, ast.Name) and node.value.value.id in dsnames and var_expr_pred(node.value.slice))
 
     for st in iter_stmts(f.node.body):
         if isinstance(st, ast.For) and isinstance(st.target, ast.Tuple) and len(st.target.elts) == 2 and all(isinstance(e, ast.Name) for e in st.target.elts):
@@ -296,15 +312,33 @@ def _attrs_stripped_by_encoder(P, f):
                     for var, helpers in table.items():
                         if isinstance(var, str) and isinstance(helpers, (tuple, list, set, frozenset)):
                             out |= {(var, h) for h in helpers if isinstance(h, str)}
-        elif isinstance(st, ast.Assign) and len(st.targets) == 1 and is_attrs_of(st.targets[0], lambda sl: str_const(sl) is not None) \
-                and isinstance(st.value, ast.DictComp) and len(st.value.generators) == 1:
-            # ds["var"].attrs = {k: v for k, v in ds["var"].attrs.items() if k not in ("a", "b")}     (also what a loop over a constant table normalises to)
+        elif isinstance(st, ast.Assign) and len(st.targets) == 1 and is_attrs_of(st.targets[0], lambda sl: str_const(sl) is not None):
+            # ds["var"].attrs = {k: v for k, v in ds["var"].attrs.items() if k not in ("a", "b")}     (also what a loop over a constant table normalises to);
+            # the right-hand side may be produced by a helper of the package: its returned expression is used (uxsa/symx)
             var = str_const(st.targets[0].value.slice)
             v = st.value
+            if isinstance(v, ast.Call):
+                from .. import symx
+                v = symx.Expander(P).expr(f, v, 0)
+            if not (isinstance(v, ast.DictComp) and len(v.generators) == 1):
+                unknown.add(var)
+                continue
+            # fold  TABLE["x"]  for module-level constant tables
+            class _Fold(ast.NodeTransformer):
+                def visit_Subscript(self_, n):
+                    self_.generic_visit(n)
+                    if isinstance(n.value, ast.Name) and str_const(n.slice) is not None:
+                        r_ = P.resolve_expr(f.module, n.value, f)
+                        tb = P.const_value(r_) if isinstance(r_, ConstInfo) else None
+                        if isinstance(tb, dict) and str_const(n.slice) in tb and isinstance(tb[str_const(n.slice)], (tuple, list)) and all(isinstance(x, str) for x in tb[str_const(n.slice)]):
+                            return ast.Tuple(elts=[ast.Constant(value=x) for x in tb[str_const(n.slice)]], ctx=ast.Load())
+                    return n
+            v = _Fold().visit(v)
             gen = v.generators[0]
             src_ok = (isinstance(gen.iter, ast.Call) and isinstance(gen.iter.func, ast.Attribute) and gen.iter.func.attr == "items"
                       and is_attrs_of(gen.iter.func.value, lambda sl: str_const(sl) == var))
             tgt_ok = isinstance(gen.target, ast.Tuple) and len(gen.target.elts) == 2 and all(isinstance(e, ast.Name) for e in gen.target.elts)
+            done = False
             if src_ok and tgt_ok and len(gen.ifs) == 1:
                 kk, vv = gen.target.elts[0].id, gen.target.elts[1].id
                 ident = isinstance(v.key, ast.Name) and v.key.id == kk and isinstance(v.value, ast.Name) and v.value.id == vv
@@ -312,6 +346,9 @@ def _attrs_stripped_by_encoder(P, f):
                 if ident and isinstance(c, ast.Compare) and len(c.ops) == 1 and isinstance(c.ops[0], ast.NotIn) and isinstance(c.left, ast.Name) and c.left.id == kk \
                         and isinstance(c.comparators[0], (ast.Tuple, ast.List, ast.Set)) and all(str_const(e) is not None for e in c.comparators[0].elts):
                     out |= {(var, str_const(e)) for e in c.comparators[0].elts}
+                    done = True
+            if not done:
+                unknown.add(var)
         elif isinstance(st, ast.Delete):
             for t in st.targets:
                 if isinstance(t, ast.Subscript) and str_const(t.slice) and is_attrs_of(t.value, lambda sl: str_const(sl) is not None):
@@ -320,6 +357,7 @@ def _attrs_stripped_by_encoder(P, f):
             recv = st.value.func.value
             if st.value.args and str_const(st.value.args[0]) and is_attrs_of(recv, lambda sl: str_const(sl) is not None):
                 out.add((str_const(recv.value.slice), str_const(st.value.args[0])))
+    _attrs_stripped_by_encoder.unknown = unknown
     return out
 
 
